@@ -203,9 +203,8 @@ pub fn c12(ctx: &Ctx) -> (Report, Meta) {
     rep.extra.insert("reachable_state_set_closed".into(), json!(closed));
     rep.extra.insert("depth_reached".into(), json!(depth));
     rep.outcome_n(if closed { "state-set-closed" } else { "state-set-not-closed-within-bounds" }, 1);
-    if !closed && rep.viol.is_empty() {
-        rep.violation("C12", "state-set-does-not-close".into(), format!("the reachable builder state set did not close within depth {} / {} states although every explored build agreed with a fresh builder: residue of earlier builds survives in the buffer", max_depth, cap_states), 0,
-            json!({"kind":"builder_history","history":states.last().map(|h| h.iter().map(|x| pool[*x].0.clone()).collect::<Vec<_>>()),"target":null}));
+    if !closed {
+        rep.notes.push(format!("the reachable state set did not close within depth {} / {} states; every history up to that depth was explored and compared, deeper histories were not (no verdict is derived from non-closure: state that no later build can observe is allowed to differ)", max_depth, cap_states));
     }
     rep.sample(json!({"history":["1004x31/ff","1300 NaN epoch (fails at the last field)"],"target":"1005:zero","oracle":"same bytes as a fresh builder"}));
     rep.sample(json!({"pool": pool.iter().map(|p| p.0.clone()).take(12).collect::<Vec<_>>()}));
